@@ -200,7 +200,12 @@ def _b_with(x, kx, y, ky):
     return ('with', 'v', x, ('select', ('tuple', ('var', 'v'), y), None)), 'tuple'
 
 
-BINS = [_b_tuple, _b_union, _b_eq, _b_in, _b_coalesce, _b_for, _b_filter_exists, _b_with]
+def _b_with_unused(x, kx, y, ky):
+    # the binding is not used by the body (a parameter in it is declared but never referenced)
+    return ('with', 'v', y, ('select', x, None)), kx
+
+
+BINS = [_b_tuple, _b_union, _b_eq, _b_in, _b_coalesce, _b_for, _b_filter_exists, _b_with, _b_with_unused]
 NBIN = len(BINS)
 
 
